@@ -1405,6 +1405,33 @@ func mutatorMethods(p *Program) map[string]map[string]*ssa.Function {
 			}
 		}
 	}
+	// a method that calls a mutating method on its own receiver mutates it too
+	// (Inspect() → Entries(), were Entries to keep its sorted list in the hash)
+	for changed := true; changed; {
+		changed = false
+		for _, fn := range p.LibFns {
+			if fn.Parent() != nil || fn.Signature.Recv() == nil || len(fn.Params) == 0 {
+				continue
+			}
+			tn := objectStructName(fn.Signature.Recv().Type())
+			if tn == "" || out[tn] == nil || out[tn][fn.Name()] != nil {
+				continue
+			}
+			recv := ssa.Value(fn.Params[0])
+			for _, b := range fn.Blocks {
+				for _, ins := range b.Instrs {
+					cc := callOf(ins)
+					if cc == nil || cc.StaticCallee() == nil || len(cc.Args) == 0 || cc.Args[0] != recv {
+						continue
+					}
+					if out[tn][cc.StaticCallee().Name()] == cc.StaticCallee() {
+						out[tn][fn.Name()] = fn
+						changed = true
+					}
+				}
+			}
+		}
+	}
 	return out
 }
 
@@ -1551,6 +1578,9 @@ func ruleNoMut(p *Program, r *Reporter) {
 				key := siteKey(p, fn, ci.Pos(), "invokes mutating "+mname)
 				// origin of the receiver
 				fresh, via := true, ""
+				if len(outerOrigins(recv)) == 0 {
+					fresh, via = false, "a value of unknown origin"
+				}
 				for _, o := range outerOrigins(recv) {
 					switch x := o.(type) {
 					case *ssa.Alloc:
